@@ -1,4 +1,9 @@
-/- Driver.C12 — stream `C12` (stub: replaced when the property's model is built). -/
+/-
+  Driver.C12 — stream `C12`: same payload as `C11` (see Driver/C11.lean); every result additionally carries the
+  formatter object's final counters (`currentIndentLevel`, `inPreformatted`, `len(_inTag)`) and every element
+  of its tree in document order with its `_indent`.
+-/
+import Driver.C11
 namespace Driver.C12
-def run (_payload : String) : String := "unimplemented"
+def run (payload : String) : String := Driver.C11.runWith true payload
 end Driver.C12
